@@ -25,7 +25,7 @@ func vxStructEq(a, b *Constant) bool {
 	return vxStructEq(a.fst, b.fst) && vxStructEq(a.snd, b.snd)
 }
 
-var vxFloats = []float64{1.0, 1.5, 0.0, -2.0, 1e21}
+var vxFloats = []float64{1.0, 1.5, 0.0, -2.0, 1e21, math.Copysign(0, -1), math.NaN()}
 
 // leaf shapes: 0 number 1 duration 2 time 3 float (from a list) 4 one-byte string 5 name {/a,/b,/a/b} 6 one-byte bytes
 func vxLeaf(id string, shapes []int, small bool) Constant {
